@@ -50,7 +50,7 @@ Theorem C04_sentence_spells :
   frag root = true ->
   wf rules site root ->
   parse_top inp rules fuel (sentence root) = Ok (TopNode ns c) ->
-  exists n : node, ns = [n] /\ leaves n = i_data inp.
+  exists n : node, ns = [n] /\ leaves inp n = i_data inp.
 Proof. exact @Sound.C04_sentence_spells. Qed.
 Print Assumptions C04_sentence_spells.
 
